@@ -537,6 +537,29 @@ fn layout_attrs(items: Vec<String>, layout: Layout, indent: &str, syntax: &[Stri
 
 /// Render the enum definition. `derives` are full paths (`strum::EnumString`, `Debug`, ..).
 pub fn render_enum(spec: &EnumSpec, derives: &[&str]) -> String {
+    if spec.syntax.iter().any(|x| x == "inherent-methods") {
+        // declaration context: the enum has INHERENT methods named like the trait methods generated code is tempted to call with
+        // method syntax (`self.into()`, `self.clone()`, `x.eq(y)`, `self.get(i)`): an inherent method wins over every trait method
+        let mut inner = spec.clone();
+        inner.syntax.retain(|x| x != "inherent-methods");
+        let mut body = render_enum(&inner, derives);
+        if spec.generics.is_empty() {
+            body.push_str(&format!(
+                "#[allow(dead_code, clippy::all)]\nimpl {n} {{\n    pub fn into(&self) -> vf_core::Hijack {{ vf_core::Hijack }}\n    pub fn try_into(&self) -> vf_core::Hijack {{ vf_core::Hijack }}\n    pub fn clone(&self) -> vf_core::Hijack {{ vf_core::Hijack }}\n    pub fn to_owned(&self) -> vf_core::Hijack {{ vf_core::Hijack }}\n    pub fn eq(&self, _o: &Self) -> vf_core::Hijack {{ vf_core::Hijack }}\n    pub fn ne(&self, _o: &Self) -> vf_core::Hijack {{ vf_core::Hijack }}\n    pub fn get(&self, _i: usize) -> vf_core::Hijack {{ vf_core::Hijack }}\n    pub fn as_ref(&self) -> vf_core::Hijack {{ vf_core::Hijack }}\n    pub fn borrow(&self) -> vf_core::Hijack {{ vf_core::Hijack }}\n    pub fn from(_x: vf_core::Hijack) -> vf_core::Hijack {{ vf_core::Hijack }}\n    pub fn default() -> vf_core::Hijack {{ vf_core::Hijack }}\n}}\n",
+                n = spec.name
+            ));
+        }
+        return body;
+    }
+    if spec.syntax.iter().any(|x| x == "variants-in-scope") {
+        // declaration context: the enum's own variants are glob-imported where it is declared (`use E::*;`, a common idiom): an
+        // identifier equal to a variant's name is then a PATH in patterns, not a fresh binding
+        let mut inner = spec.clone();
+        inner.syntax.retain(|x| x != "variants-in-scope");
+        let mut body = render_enum(&inner, derives);
+        body.push_str(&format!("#[allow(unused_imports)]\nuse {}::*;\n", spec.name));
+        return body;
+    }
     if spec.syntax.iter().any(|x| x == "iter-ext-trait") {
         // declaration context: a blanket extension trait gives EVERY iterator a by-`&mut self` method called `get`
         // (generated code that calls `self.get(i)` on its iterator instead of `Self::get(self, i)` picks this one up)
